@@ -169,3 +169,131 @@ package playlist
 //@   ensures [C15,C16] result0 in /#EXTM3U\n#EXT-X-VERSION:{INT}\n(#EXT-X-INDEPENDENT-SEGMENTS\n)?(#EXT-X-START:TIME-OFFSET={SDF}\n)?(\n(#EXT-X-MEDIA:{ATTRS}\n)*)?\n(#EXT-X-STREAM-INF:{ATTRS}\n{URILINE}\n)*/
 //@   emits [C14,C16] "#EXT-X-VERSION:" m.Version
 //@ end
+
+// ---------------------------------------------------------------------------------------------
+// Decoder side (C15, and the freshness fragment of C14): every unmarshal function is checked for panic
+// freedom on every input string, the line loops terminate (decreases on the remaining input), and on
+// success the result has the structure the property lists (callers index into it without checking).
+
+//@ pred partOK(p *MediaPart) := p != nil && p.Duration != 0 && p.URI != ""
+//@ pred segOK(s *MediaSegment) := s != nil && s.Duration != 0 && s.URI != "" && forall(j, (0 <= j && j < len(s.Parts)) ==> partOK(s.Parts[j]))
+
+//@ func MediaPart.unmarshal
+//@   props C14 C15
+//@   modifies *p
+//@   loop 1 invariant p.ByteRangeStart == nil || p.ByteRangeStart == old(p.ByteRangeStart) || fresh(p.ByteRangeStart)
+//@   loop 1 invariant p.ByteRangeLength == nil || p.ByteRangeLength == old(p.ByteRangeLength) || fresh(p.ByteRangeLength)
+//@   ensures [C15] result == nil ==> p.Duration != 0 && p.URI != ""
+//@   ensures [C14] p.ByteRangeStart == nil || p.ByteRangeStart == old(p.ByteRangeStart) || fresh(p.ByteRangeStart)
+//@   ensures [C14] p.ByteRangeLength == nil || p.ByteRangeLength == old(p.ByteRangeLength) || fresh(p.ByteRangeLength)
+//@ end
+
+//@ func MediaMap.unmarshal
+//@   props C14 C15
+//@   modifies *t
+//@   loop 1 invariant t.ByteRangeStart == nil || t.ByteRangeStart == old(t.ByteRangeStart) || fresh(t.ByteRangeStart)
+//@   ensures [C15] result == nil ==> t.URI != ""
+//@   ensures [C14] t.ByteRangeStart == nil || t.ByteRangeStart == old(t.ByteRangeStart) || fresh(t.ByteRangeStart)
+//@ end
+
+//@ func MediaPartInf.unmarshal
+//@   props C15
+//@   modifies *t
+//@   ensures result == nil ==> t.PartTarget != 0
+//@ end
+
+//@ func MediaPreloadHint.unmarshal
+//@   props C15
+//@   modifies *t
+//@   ensures result == nil ==> t.URI != ""
+//@ end
+
+//@ func MediaSkip.unmarshal
+//@   props C15
+//@   modifies *t
+//@ end
+
+//@ func MediaServerControl.unmarshal
+//@   props C15
+//@   modifies *t
+//@ end
+
+//@ func MediaKey.unmarshal
+//@   props C15
+//@   requires t.Method == ""
+//@   modifies *t
+//@   loop 1 invariant t.Method == "NONE" || t.Method == "AES-128" || t.Method == "SAMPLE-AES" || t.Method == ""
+//@   ensures result == nil ==> t.Method == "NONE" || t.Method == "AES-128" || t.Method == "SAMPLE-AES" || t.Method == ""
+//@ end
+
+//@ func MultivariantStart.unmarshal
+//@   props C15
+//@   modifies *t
+//@ end
+
+//@ func MultivariantRendition.unmarshal
+//@   props C15 C16
+//@   requires t.Type == ""
+//@   modifies *t
+//@   loop 1 invariant t.Type == "" || t.Type == "AUDIO" || t.Type == "VIDEO" || t.Type == "SUBTITLES" || t.Type == "CLOSED-CAPTIONS"
+//@   ensures result == nil ==> t.GroupID != "" && (t.Type == "AUDIO" || t.Type == "VIDEO" || t.Type == "SUBTITLES" || t.Type == "CLOSED-CAPTIONS")
+//@ end
+
+//@ func MultivariantVariant.unmarshal
+//@   props C15 C16
+//@   requires contains(va, "\n")
+//@   modifies *v
+//@   ensures result == nil ==> v.URI != ""
+//@ end
+
+//@ func Media.Unmarshal
+//@   props C14 C15
+//@   requires len(m.Segments) == 0 && m.Map == nil && m.PartInf == nil && m.PreloadHint == nil
+//@   modifies *m
+//@   loop 1 invariant curSegment != nil && fresh(curSegment)
+//@   loop 1 invariant forall(i, (0 <= i && i < len(m.Segments)) ==> (segOK(m.Segments[i]) && m.Segments[i] != curSegment))
+//@   loop 1 invariant forall(j, (0 <= j && j < len(curSegment.Parts)) ==> partOK(curSegment.Parts[j]))
+//@   loop 1 invariant forall(i, (0 <= i && i < len(m.Segments)) ==> (m.Segments[i].ByteRangeStart == nil || m.Segments[i].ByteRangeStart != curSegment.ByteRangeStart))
+//@   loop 1 invariant forall(i, (0 <= i && i < len(m.Segments)) ==> (m.Segments[i].ByteRangeLength == nil || m.Segments[i].ByteRangeLength != curSegment.ByteRangeLength))
+//@   loop 1 invariant m.Map != nil ==> m.Map.URI != ""
+//@   loop 1 invariant m.PartInf != nil ==> m.PartInf.PartTarget != 0
+//@   loop 1 invariant m.PreloadHint != nil ==> m.PreloadHint.URI != ""
+//@   loop 1 decreases strlen(s)
+//@   ensures [C15] result == nil ==> m.TargetDuration != 0 && len(m.Segments) >= 1
+//@   ensures [C15] result == nil ==> forall(i, (0 <= i && i < len(m.Segments)) ==> segOK(m.Segments[i]))
+//@   ensures [C15] result == nil ==> forall(j, (0 <= j && j < len(m.Parts)) ==> partOK(m.Parts[j]))
+//@   ensures [C15] result == nil ==> (m.Map != nil ==> m.Map.URI != "") && (m.PartInf != nil ==> m.PartInf.PartTarget != 0) && (m.PreloadHint != nil ==> m.PreloadHint.URI != "")
+//@ end
+
+//@ pred variantOK(v *MultivariantVariant) := v != nil && v.URI != ""
+//@ pred renditionOK(r *MultivariantRendition) := r != nil && r.GroupID != "" && (r.Type == "AUDIO" || r.Type == "VIDEO" || r.Type == "SUBTITLES" || r.Type == "CLOSED-CAPTIONS")
+
+//@ func Multivariant.Unmarshal
+//@   props C15 C16
+//@   requires len(m.Variants) == 0 && len(m.Renditions) == 0
+//@   modifies *m
+//@   loop 1 invariant forall(i, (0 <= i && i < len(m.Variants)) ==> variantOK(m.Variants[i]))
+//@   loop 1 invariant forall(i, (0 <= i && i < len(m.Renditions)) ==> renditionOK(m.Renditions[i]))
+//@   loop 1 decreases strlen(s)
+//@   ensures result == nil ==> len(m.Variants) >= 1
+//@   ensures result == nil ==> forall(i, (0 <= i && i < len(m.Variants)) ==> variantOK(m.Variants[i]))
+//@   ensures result == nil ==> forall(i, (0 <= i && i < len(m.Renditions)) ==> renditionOK(m.Renditions[i]))
+//@ end
+
+//@ func findType
+//@   props C15
+//@   ensures result1 == nil ==> result0 != nil && (is(result0, *Media) || is(result0, *Multivariant))
+//@   ensures result1 == nil && is(result0, *Media) ==> len(result0.(*Media).Segments) == 0 && result0.(*Media).Map == nil && result0.(*Media).PartInf == nil && result0.(*Media).PreloadHint == nil
+//@   ensures result1 == nil && is(result0, *Multivariant) ==> len(result0.(*Multivariant).Variants) == 0 && len(result0.(*Multivariant).Renditions) == 0
+//@   ensures result1 == nil && is(result0, *Media) ==> fresh(result0.(*Media))
+//@   ensures result1 == nil && is(result0, *Multivariant) ==> fresh(result0.(*Multivariant))
+//@ end
+
+//@ func Unmarshal
+//@   props C15
+//@   ensures result1 == nil ==> result0 != nil
+//@ end
+
+//@ func parseTime
+//@   props C15
+//@ end
